@@ -183,6 +183,14 @@ func (aead *aesCBCAEAD) Open(dst, nonce, ciphertext, additionalData []byte) ([]b
 		return nil, errors.New("message authentication failed")
 	}
 
+	// The CBC decrypter panics if the nonce is not one block long or the ciphertext is not made of full blocks
+	if len(nonce) != aes.BlockSize {
+		return nil, errors.New("invalid nonce size")
+	}
+	if len(ciphertext)%aes.BlockSize != 0 {
+		return nil, errors.New("invalid ciphertext size")
+	}
+
 	// Ensure the destination slice has enough capacity
 	size := len(ciphertext)
 	dstLen := len(dst)
